@@ -162,6 +162,14 @@ def ledger_facts():
     facts["exit_gathers"] = "await AsyncTasks.__aexit__(self, exc_info)" in es and "self.cancel_key_tasks('SPAMAN')" in es
     fd = method(os.path.join("automation", "async_facade.py"), "GeckoAsyncFacade", "disconnect")
     facts["facade_disconnect_cancels_tasks"] = "self._taskman.cancel_key_tasks('FACADE')" in stmts(fd)
+    # events of a disconnected spa are dropped: _event_handler returns early under `if self._disconnected`, disconnect() sets the flag
+    try:
+        eh = method("async_spa.py", "GeckoAsyncSpa", "_event_handler")
+        first = [x for x in eh.body if not (isinstance(x, ast.Expr) and isinstance(x.value, ast.Constant))][0]
+        guard = isinstance(first, ast.If) and ast.unparse(first.test) == "self._disconnected" and isinstance(first.body[-1], ast.Return)
+    except RuntimeError:
+        guard = False
+    facts["spa_silent_after_disconnect"] = bool(guard and "self._disconnected = True" in ds)
     ar = stmts(method("async_spa_manager.py", "GeckoAsyncSpaMan", "async_reset"))
     facts["reset_disconnects_facade_and_spa"] = "await self._facade.disconnect()" in ar and "await self._spa.disconnect()" in ar
     return facts
